@@ -145,6 +145,9 @@ def run(tier, work):
         if mm is None:
             continue
         v.count("batch_mismatches")
+        if len(v.violations) >= 12:
+            v.count("mismatches_not_confirmed_after_12_violations")
+            continue
         job, obs2, rr = run_alone(work, cfg, prog)
         mm = first_mismatch(obs2)
         if mm is None:
